@@ -1225,21 +1225,36 @@ def _hoist_nested_call(blk, i, is_target, uid) -> bool:
     found = []
 
     def scan(n, top):
+        """in evaluation order: everything evaluated before the helper call
+        is a plain read; what comes after it may be anything (but not a
+        second helper call)"""
+        if found:
+            return not any(isinstance(x, ast.Call) and is_target(x)
+                           for x in ast.walk(n))
         if isinstance(n, ast.Call) and is_target(n) and not top:
+            f_ = n.func
+            if isinstance(f_, ast.Attribute) and not _pure(f_.value):
+                return False
             found.append(n)
-            return all(_pure(a) for a in list(n.args) +
-                       [k.value for k in n.keywords])
+            return True
         if isinstance(n, ast.Call):
             if is_target(n):
                 return False       # the whole value: a plain site
-            return _pure(n.func) and all(
-                scan(a, False) for a in list(n.args) +
-                [k.value for k in n.keywords])
+            if not _pure(n.func):
+                return False
+            for a in list(n.args) + [k.value for k in n.keywords]:
+                if not scan(a, False):
+                    return False
+                if not found and not _pure(a):
+                    return False
+            return True
         if isinstance(n, (ast.Tuple, ast.List, ast.Set)):
-            return all(scan(e, False) for e in n.elts)
-        if isinstance(n, ast.Dict):
-            return all(scan(e, False) for e in list(n.keys) + list(n.values)
-                       if e is not None)
+            for e in n.elts:
+                if not scan(e, False):
+                    return False
+                if not found and not _pure(e):
+                    return False
+            return True
         if isinstance(n, ast.Starred):
             return scan(n.value, False)
         return _pure(n)
@@ -1311,13 +1326,23 @@ def undo_extractions(tree: ast.Module, modname: str, known: Set[str],
             owners = [enclosing[id(h)]]
             scope_root = enclosing[id(h)]
 
-        def _is_h(c, h=h, hcls=hcls):
+        # a new method whose name no other function of the module (old or
+        # new) bears can be recognised on any receiver
+        unique = hcls is not None and not is_static and sum(
+            1 for qq in def_table(tree, modname)
+            if qq.rsplit('.', 1)[-1] == h.name) == 1 and not any(
+            kq.rsplit('.', 1)[-1] == h.name for kq in known)
+
+        def _is_h(c, h=h, hcls=hcls, unique=unique):
             f = c.func
             if hcls is None:
                 return isinstance(f, ast.Name) and f.id == h.name
-            return isinstance(f, ast.Attribute) and f.attr == h.name and \
-                isinstance(f.value, ast.Name) and f.value.id in (
-                    'self', 'cls')
+            if not (isinstance(f, ast.Attribute) and f.attr == h.name):
+                return False
+            if isinstance(f.value, ast.Name) and f.value.id in (
+                    'self', 'cls'):
+                return True
+            return unique and _pure(f.value)
         if not is_async:
             for caller in owners:
                 for _o, _f, blk in list(_blocks(caller)):
@@ -1339,6 +1364,13 @@ def undo_extractions(tree: ast.Module, modname: str, known: Set[str],
                     if hcls is None and isinstance(f, ast.Name) and \
                             f.id == h.name:
                         sites.append((caller, blk, st, c, form, None))
+                        call_funcs.add(id(f))
+                    elif hcls is not None and isinstance(f, ast.Attribute) \
+                            and f.attr == h.name and unique and not (
+                                isinstance(f.value, ast.Name) and
+                                f.value.id in ('self', 'cls', hcls.name)) \
+                            and _pure(f.value):
+                        sites.append((caller, blk, st, c, form, f.value))
                         call_funcs.add(id(f))
                     elif hcls is not None and isinstance(f, ast.Attribute) \
                             and f.attr == h.name and isinstance(
